@@ -83,6 +83,20 @@ Theorem C19_slot_span : forall mn mx slot span, slot < two64 -> span < two64 ->
 Proof. exact check_slot_span_iff. Qed.
 Print Assumptions C19_slot_span.
 
+(* XorBytes32: byte-wise xor, length kept, bytes stay bytes, commutative, and mixing a value in twice restores the original *)
+Theorem C19_xor_bytes : forall a b, length a = length b ->
+  length (xor_bytes a b) = length a /\
+  (forall i, (i < length a)%nat -> nth i (xor_bytes a b) 0 = N.lxor (nth i a 0) (nth i b 0)) /\
+  xor_bytes a b = xor_bytes b a /\ xor_bytes (xor_bytes a b) b = a.
+Proof.
+  intros a b H. split; [exact (xor_bytes_length a b H)|]. split; [intros i Hi; exact (xor_bytes_nth a b i H Hi)|].
+  split; [exact (xor_bytes_comm a b)|exact (xor_bytes_involutive a b H)].
+Qed.
+Print Assumptions C19_xor_bytes.
+Theorem C19_xor_bytes_range : forall a b, Forall (fun x => x < 256) a -> Forall (fun x => x < 256) b ->
+  Forall (fun x => x < 256) (xor_bytes a b).
+Proof. exact xor_bytes_byte. Qed.
+Print Assumptions C19_xor_bytes_range.
 (* Merkle branches: for ANY hash function, accepts exactly the branches that hash to the root *)
 Theorem C19_merkle : forall (B : Type) (H : B -> B) (cat : B -> B -> B) (beq : B -> B -> bool)
     leaf branch (depth : nat) index root, (depth <= length branch)%nat ->
